@@ -117,7 +117,7 @@ theorem requestSys_lawful (cfg : ReqCfg) : (requestSys u cfg).Lawful (ReqInv cfg
     · exact hdrStep_le h
     · exact rlStep_le h
   inv := by
-    intro s b i s' c hI h
+    intro s b i s' c hI h _
     simp only [requestSys, reqStep] at h
     unfold ReqInv at hI ⊢
     split at h
